@@ -69,12 +69,82 @@ def run(ck):
     print("extras: %d executions judged, %d observations" % (len(traces), len(fails)))
 
 
+# ---------------------------------------------------------------- prtpy/alternatives/bins.py against BinnerVal (the object-style twin of the bins-managers)
+def run_alt_hist(st):
+    """replays a BinnerGen history (without concat: the alternative classes have no concatenation) on prtpy.alternatives.bins objects; same trace format as
+    drive.run_binner_hist so that JBinner judges it"""
+    from prtpy.alternatives import bins as alt
+    contents = st["mgr"] == "contents"
+    val = lambda it: 0 if it >= 100 else it
+    live, evs = {}, []
+
+    def proj(o):
+        outl = []
+        for i in range(len(o.sums)):
+            s = exact_int(o.sums[i])
+            outl.append({"s": -999999 if s is None else s, "c": [int(x) for x in o.bins[i]] if contents else []})
+        return outl
+
+    for op in st["ops"]:
+        ev = dict(op); ev["out"] = "ret"; ev["args"] = []
+        a, b = op["a"], op["b"]
+        try:
+            o = op["op"]
+            if o == "new":
+                live[a] = (alt.BinsKeepingContents if contents else alt.BinsKeepingSums)(op["n"], val)
+            elif o == "add":
+                live[a].add_item_to_bin(op["it"], op["i"] - 1)
+            elif o == "copy":
+                live[b] = live[a].clone()
+            elif o == "sort":
+                live[a].sort_by_ascending_sum()
+            elif o == "addempty":
+                live[a].add_empty_bins(op["n"])
+            elif o == "remove":
+                live[a].remove_bins(op["n"])
+            elif o == "combine":
+                live[a].combine_bins(op["i"] - 1, live[b], op["j"] - 1)
+        except Exception as e:
+            ev["out"] = outcome_of_exception(e)
+        try:
+            ev["st"] = [{"live": 1 if s in live else 0, "bins": proj(live[s]) if s in live else []} for s in range(1, 4)]
+        except Exception as e:
+            ev["out"] = "bad:projection:" + type(e).__name__
+            ev["st"] = [{"live": 0, "bins": []} for s in range(1, 4)]
+        evs.append(ev)
+        if ev["out"] != "ret":
+            break
+    return {"mgr": st["mgr"], "ns": 3, "ops": evs}
+
+
+def run_alternatives(ck):
+    from .props import c16
+    r = ck.mc("BinnerGen", c16.gen_cfg([1, 2], [1, 2], 2, 4), "GEN operation histories for the alternative Bins classes")
+    hists = [e["ops"] for e in r.emitted if all(o["op"] != "concat" for o in e["ops"])]
+    stim = [{"ops": h, "mgr": m} for h in hists for m in ("contents", "sums")]
+    traces = core.pmap(run_alt_hist, stim)
+    fails = ck.judge("JBinner", traces, {"C16"}, what="prtpy.alternatives.bins histories stepped through BinnerVal", chunk=8000, extra_consts=c16.JCFG, count_events=lambda t: len(t["ops"]))
+    tally = {}
+    for fl in fails:
+        c = fl["c"].replace("C16.", "X.alternatives.")
+        tally[c] = tally.get(c, 0) + 1
+        if tally[c] <= 1:
+            ops = [{k: o[k] for k in ("op", "a", "b", "i", "j", "n", "it")} for o in fl["trace"]["ops"][:fl["e"]]]
+            print("  observation:", c, fl["trace"]["mgr"], ops, "observed:", fl["trace"]["ops"][fl["e"] - 1]["st"])
+    for c, n in sorted(tally.items()):
+        print("OBSERVATION (outside the listed properties) %s: %d of %d histories" % (c, n, len(traces)))
+    print("extras/alternatives: %d histories judged, %d observations" % (len(traces), len(fails)))
+
+
 if __name__ == "__main__":
     import os, shutil
     os.environ["VERIF_EVIDENCE_DIR"] = "/tmp/prtpy-verif-extras-ev"
     ck = core.Check("C00", "quick")
     try:
         run(ck)
+        run_alternatives(ck)
     finally:
         shutil.rmtree(ck.scratch, ignore_errors=True)
         shutil.rmtree("/tmp/prtpy-verif-extras-ev", ignore_errors=True)
+
+
